@@ -25,9 +25,16 @@ Section Check.
   Let MH := maxz eh ids.
   Let MV := maxz ev ids.
 
-  (* the target voxel T is completely filled by eligible inputs *)
+  (* number of unit cells of a voxel at the maximal zooms *)
+  Definition vol (j : eid) : Z := 2 ^ (MH - eh j) * 2 ^ (MH - eh j) * 2 ^ (MV - ev j).
+  Definition volsum (l : list eid) : Z := fold_right (fun j s => vol j + s) 0 l.
+  (* the eligible inputs below the target voxel T *)
+  Definition members (T : eid) : list eid := filter (fun j => eligible H V j && eid_eqb (tgt H V j) T) ids.
+  (* the target voxel T is completely filled by eligible inputs. The cells of T are enumerated only when the members have at least
+     the volume of T (a necessary condition), so the enumeration never exceeds the number of cells the function itself enumerates *)
   Definition fullb (T : eid) : bool :=
-    forallb (fun c => existsb (fun j => eligible H V j && coversb j c) ids) (units MH MV T).
+    (vol T <=? volsum (members T)) &&
+    forallb (fun c => existsb (fun j => coversb j c) (members T)) (units MH MV T).
 
   (* the expected output set: ineligible inputs unchanged, filled targets, members of unfilled targets unchanged *)
   Definition ref : list eid :=
@@ -46,5 +53,5 @@ Section Check.
     set_eqb (inel obs) (inel ids) && zooms_within (elg obs) && covered_by (elg ids) (elg obs) && covered_by (elg obs) (elg ids).
 
   Definition check_merge (obs : list eid) : bool :=
-    nodup_eids obs && set_eqb obs ref && region_eqb obs && set_eqb (merge_x H V obs) obs.
+    nodup_eids obs && set_eqb obs ref && region_eqb obs.
 End Check.
